@@ -6,6 +6,7 @@ import AtreeModel.Replay.Map
 import AtreeModel.Replay.World
 import AtreeModel.Replay.Settings
 import AtreeModel.Replay.Codec
+import AtreeModel.Replay.Iter
 /-
   atree_model: replays a trace (stdin) on the Lean model and compares every line the
   implementation produced with the model's own rendering.
@@ -74,6 +75,12 @@ partial def loopCodec (h : IO.FS.Stream) (s : CodecState) (n : Nat) : IO CodecSt
   let line := (line.dropRightWhile (fun c => c == '\n' || c == '\r'))
   loopCodec h (s.stepLine line n) (n + 1)
 
+partial def loopIter (h : IO.FS.Stream) (s : IterState) (n : Nat) : IO IterState := do
+  let line ← h.getLine
+  if line.isEmpty then return s
+  let line := (line.dropRightWhile (fun c => c == '\n' || c == '\r'))
+  loopIter h (s.stepLine line n) (n + 1)
+
 def main (args : List String) : IO UInt32 := do
   let stdin ← IO.getStdin
   match args with
@@ -106,11 +113,16 @@ def main (args : List String) : IO UInt32 := do
     let s := if s.pending.isEmpty then s else s.note s!"end of trace: model expected further lines: {s.pending}"
     IO.println ("RESULT " ++ reportJson "codec" s.rep)
     return (if s.rep.nMismatch == 0 then 0 else 1)
+  | ["iter"] =>
+    let s ← loopIter stdin {} 1
+    let r := s.finish.report
+    IO.println ("RESULT " ++ reportJson "iter" r)
+    return (if r.nMismatch == 0 then 0 else 1)
   | ["health"] =>
     let s ← loopHealth stdin {} 1
     let s := if s.pending.isEmpty then s else s.note s!"end of trace: model expected further lines: {s.pending}"
     IO.println ("RESULT " ++ reportJson "health" s.rep)
     return (if s.rep.nMismatch == 0 then 0 else 1)
   | _ =>
-    IO.eprintln "usage: atree_model <array|storage|health|map|world|settings|codec> < trace"
+    IO.eprintln "usage: atree_model <array|storage|health|map|world|settings|codec|iter> < trace"
     return 2
